@@ -202,4 +202,67 @@ theorem tp0_claimant {cfg : Cfg} {n : Net} {x y : Nat} {stx sty : NetStation} {l
     · rw [haddr, hsy, hv0]; omega
     · rw [hseen, hsy]; exact ⟨Int.le_refl _, Int.le_trans h.seens.2 htl⟩
 
+/-- **Token on the bus, the former holder is polled**: its slot time has not run out; nothing happens. -/
+theorem tp1_claimant {cfg : Cfg} {n : Net} {x y : Nat} {stx sty : NetStation} {p lY : Int} {M : List Nat} {B tl : Int}
+    (h : TP1 cfg n x y stx sty p lY M B tl) (hok : cfg.Ok) (now : Int) (htl : tl ≤ now) (hown : n.bus.seen.getD x 0 < now)
+    (hgy : now ≤ n.bus.seen.getD y 0 + (cfg.P : Nat)) :
+    ∃ n' c, n.poll x now = (n', [], some (.ok c)) ∧ c.tx = none ∧ TP1 cfg n' x y stx sty p lY M B now := by
+  have hr := hok.rate
+  have hmar := hok.margin
+  have hc2 := cfg.ce2 hr
+  have hs := h.soloX
+  have hno : stx.s.st ≠ .offline ∧ stx.s.st ≠ .passiveIdle := by rw [h.stx_st]; simp
+  have hup : upSt stx { s := stx.s, apps := stx.apps, rx := [] } = stx := by unfold upSt; rw [← hs.rx]
+  have hxy : x ≠ y := Ne.symm h.yx
+  have hys : n.bus.seen.getD y 0 < p + ((cfg.ce 2 : Nat) : Int) := by
+    by_cases h' : n.bus.seen.getD y 0 < p + ((cfg.ce 2 : Nat) : Int)
+    · exact h'
+    · have h' : p + ((cfg.ce 2 : Nat) : Int) ≤ n.bus.seen.getD y 0 := by omega
+      have := (cvis_spec cfg (tkTx x stx.s.p.address sty.s.p.address p) (n.bus.seen.getD y 0) 2
+        (by show 2 < 3; omega)).2 h'
+      have := h.headY
+      omega
+  obtain ⟨n', hp, hS, hseen⟩ : ∃ n', n.poll x now = (n', [], some (.ok { s := stx.s, apps := stx.apps, rx := [] })) ∧
+      Solo cfg n' x stx (p + (cfg.b33 : Nat)) ∧ n'.bus.seen.getD x 0 = now := by
+    by_cases hle : now ≤ p + (cfg.b33 : Nat)
+    · exact solo_ongoing hs hr now hown hle hno.1 hno.2
+    · have hlt : p + (cfg.b33 : Nat) < now := by omega
+      obtain ⟨c', hc', -, -⟩ := pollInner_good { s := stx.s, apps := stx.apps, rx := [] } now false hs.inv rfl
+      have hpd : stx.s.poll stx.apps now false [] = .ok c' := hc'
+      rw [poll_dispatch stx.s stx.apps now [] hs.son hno.1 hno.2 (by intro l0 hl0; rw [hs.stamp] at hl0; cases hl0; exact hlt)] at hpd
+      simp only [List.length_nil, checkBus_nil] at hpd
+      have hd := hpd
+      unfold dispatch at hpd
+      simp only [h.stx_st] at hpd
+      have hcc : c' = { s := stx.s, apps := stx.apps, rx := [] } := by
+        rcases doCheckTokenPass_waits { s := stx.s, apps := stx.apps, rx := [] } now (p + (cfg.b33 : Nat)) .first c' h.stx_st
+          hs.stamp (by omega) (by show ¬ now > p + (cfg.b33 : Nat) + ((stx.s.p.slotTime : Nat) : Int); rw [hs.slot]; omega) hpd
+          with ⟨rx', ret, hrx, hc⟩ | ⟨-, rx', x0, rest, ret, hrx⟩
+        · have hrx' : receiveAll [] = .done rx' [] ret := hrx
+          rw [receiveAll_nil] at hrx'
+          cases hrx'
+          exact hc
+        · have hrx' : receiveAll [] = .done rx' (x0 :: rest) ret := hrx
+          rw [receiveAll_nil] at hrx'
+          cases hrx'
+      rw [hcc] at hd
+      obtain ⟨n', hp, hS, hseen⟩ := solo_step hs hr now hown hlt _ hno.1 hno.2 hd (p + (cfg.b33 : Nat)) hs.son rfl rfl hs.stamp
+        (Int.le_refl _) (fun b hb => by cases hb)
+      rw [hup] at hS
+      exact ⟨n', hp, hS, hseen⟩
+  obtain ⟨hbus, st0, hst0, hset, -⟩ := Net.poll_bus n x now n' [] _ hp
+  rw [hs.deliver hr now (Int.le_of_lt hown)] at hbus
+  simp only at hbus
+  rw [hs.gx] at hst0
+  cases hst0
+  rw [hup] at hset
+  have hsy : n'.bus.seen.getD y 0 = n.bus.seen.getD y 0 := by rw [hbus]; exact seen_set_other n.bus x y now hxy
+  refine ⟨n', _, hp, rfl, hS, h.stx_st, h.succ, by rw [hset, List.getElem?_set_ne hxy]; exact h.gy,
+    by rw [hset, List.length_set]; exact h.yl, by rw [hbus]; simp only [List.length_set]; exact h.ys, h.yon, h.sty_st, h.yps,
+    h.ne, h.yx, (by
+      obtain ⟨dn, hd1, hd2⟩ := h.split
+      exact ⟨dn, by rw [hbus]; exact hd1, fun o ho => by rw [hsy]; exact hd2 o ho⟩), by rw [hsy]; exact h.rxY, by rw [hsy]; exact h.pendY,
+    by rw [hsy]; exact h.headY, h.stampY, by rw [hsy]; exact h.lYp, h.ttoY, h.pB, Int.le_trans h.ptl htl,
+    by rw [hseen, hsy]; exact ⟨Int.le_refl _, Int.le_trans h.seens.2 htl⟩⟩
+
 end PV
